@@ -63,6 +63,7 @@ structure State (σ : Type) where
   /-- `self._timers` -/
   timers : List (Addr × TcTimer)
   down : σ
+  deriving DecidableEq
 
 def State.init {σ} (d : σ) : State σ := ⟨none, 0, none, [], [], d⟩
 
@@ -127,7 +128,7 @@ def queryOrDefer (H : Handler σ ω β) (s : State σ) (m : MsgInfo) (pkt : Pack
   else
     let cur := (alGet addr s.deferred).getD []
     -- (`setdefault(addr, [])`: when a packet matches, the entry already exists, so nothing changes)
-    if cur.any (fun p => p.data == pkt.data) then (s, [], .deferredSame)
+    if cur.any (fun p => Gen.Listener.deferred_same_packet (p.data == pkt.data)) then (s, [], .deferredSame)
     else
       let due := pkt.now + (draw : Int)
       ({ s with deferred := alSet addr (cur ++ [pkt]) s.deferred,
@@ -217,6 +218,34 @@ def QueryRepeatNeutral (ok : ω → Bool) : Prop :=
   ∀ (x : σ) (ps : List Packet) (pk : Packet) (a : Addr) (p : Nat),
     (H.onQuery (H.onQuery x (ps ++ [pk]) a p).1 [pk] a p).1 = (H.onQuery x (ps ++ [pk]) a p).1 ∧
     ∀ y ∈ (H.onQuery (H.onQuery x (ps ++ [pk]) a p).1 [pk] a p).2, ok y = true
+
+/-- the same **at one state and for one arrival** (the form the real handler can meet: the ∀-state form above is false of it —
+finding D11 is a state at which it fails): the second of two back-to-back copies of `d`, arriving at `s`, leaves the whole state
+as the first left it and emits only `ok` outputs -/
+def NeutralAt (ok : ω → Bool) (s : State σ) (d : Bytes) (a : Addr) (p : Nat) (now : Ms) (r : Nat) : Prop :=
+  (recv H (recv H s d a p now r).1 d a p now r).1 = (recv H s d a p now r).1 ∧
+  ∀ x ∈ (recv H (recv H s d a p now r).1 d a p now r).2.1, ok x = true
+
+/-- **per history**: along the run of `h` from `s`, every arrival that is a QU query is neutral *at the state in which it
+arrives* (nothing is asked of arrivals that are not QU queries, of states the history does not visit, or of other packets) -/
+def NeutralAlong (ok : ω → Bool) : State σ → List (Block β) → Prop
+  | _, [] => True
+  | s, .recv d a p n r :: rest =>
+    (quQuery H d = true → NeutralAt H ok s d a p n r) ∧ NeutralAlong ok (recv H s d a p n r).1 rest
+  | s, .tcFire a :: rest =>
+    match step H s (.tcFire a) with
+    | .ok (s', _) => NeutralAlong ok s' rest
+    | .error _ => True
+  | s, .other b :: rest =>
+    match step H s (.other b) with
+    | .ok (s', _) => NeutralAlong ok s' rest
+    | .error _ => True
+
+/-- the handler-level condition at one downstream state: answering the single packet `pk` again, right after the query
+`ps ++ [pk]` was answered at `x`, changes nothing downstream and emits only `ok` outputs -/
+def QueryRepeatNeutralAt (ok : ω → Bool) (x : σ) (ps : List Packet) (pk : Packet) (a : Addr) (p : Nat) : Prop :=
+  (H.onQuery (H.onQuery x (ps ++ [pk]) a p).1 [pk] a p).1 = (H.onQuery x (ps ++ [pk]) a p).1 ∧
+  ∀ y ∈ (H.onQuery (H.onQuery x (ps ++ [pk]) a p).1 [pk] a p).2, ok y = true
 
 end
 
